@@ -1,10 +1,80 @@
 package mon
 
 import (
+	"fmt"
+	"strconv"
+
+	gqlparser "github.com/vektah/gqlparser/v2"
+	"github.com/vektah/gqlparser/v2/ast"
+	"github.com/vektah/gqlparser/v2/gqlerror"
+	"github.com/vektah/gqlparser/v2/validator"
+
 	"verif/harness/internal/core"
 	"verif/harness/internal/model"
+	"verif/harness/internal/tsys"
 )
 
-// placeholders until the typed generators exist
-func c04Typed(x *core.Ctx, r *core.Rand, rn *model.Renderer, i int) {}
-func c04CheckTyped(x *core.Ctx, c *core.Case)                     {}
+// c04Typed: multi-source schema loads. Valid schemas: every position reachable from the loaded
+// *ast.Schema; faulted schemas: the location of the load error must be a token start of the file it names.
+func c04Typed(x *core.Ctx, r *core.Rand, rn *model.Renderer, i int) {
+	items := tsys.Schema(r, &tsys.GenOpts{Descs: true, Hostile: i%8 == 3, Extensions: true, Small: i%3 == 0})
+	if i%8 != 7 {
+		all := append(append([]tsys.Fault{}, tsys.Faults...), tsys.ExtraFaults...)
+		f := all[r.Intn(len(all))]
+		if out, _, ok := f.Inject(r, tsys.CloneItems(items)); ok {
+			items = out
+		}
+	}
+	// shuffle whole items and cut into 1-4 sources, each rendered with its own hostile trivia
+	p := r.Perm(len(items))
+	k := 1 + r.Intn(4)
+	if k > len(items) {
+		k = len(items)
+	}
+	groups := make([][]*model.Item, k)
+	for j, q := range p {
+		g := j * k / len(items)
+		groups[g] = append(groups[g], items[q])
+	}
+	kv := []string{"n", strconv.Itoa(k)}
+	for j, g := range groups {
+		kv = append(kv, fmt.Sprintf("src%d", j), rn.RenderSDoc(&model.SDoc{Items: g}))
+	}
+	c := core.NewCase("load", kv...)
+	x.Do(c, func() { c04CheckTyped(x, c) })
+}
+
+func c04CheckTyped(x *core.Ctx, c *core.Case) {
+	if c.Kind != "load" {
+		return
+	}
+	n, _ := strconv.Atoi(c.Get("n"))
+	var srcs []*ast.Source
+	for j := 0; j < n; j++ {
+		srcs = append(srcs, &ast.Source{Name: fmt.Sprintf("part%d.graphql", j), Input: c.Get(fmt.Sprintf("src%d", j))})
+	}
+	pc := newPosChecker(x, append([]*ast.Source{validator.Prelude}, srcs...)...)
+	for _, s := range srcs {
+		if !pc.sources[s].lexOK {
+			x.Count("skipped:reference-cannot-lex")
+			return
+		}
+	}
+	schema, err := gqlparser.LoadSchema(srcs...)
+	if err != nil {
+		x.Count("load_errors")
+		if ge, ok := err.(*gqlerror.Error); ok {
+			if len(ge.Locations) == 0 {
+				x.Violate("error(load):no-location", ge.Message, "a location")
+				return
+			}
+			pc.checkErrorLocation("load", ge, nil)
+		}
+		return
+	}
+	x.Count("loaded_schemas")
+	if n > 1 {
+		x.Count("loaded_multi_source")
+	}
+	pc.walkPositions(schema, false)
+}
